@@ -239,6 +239,8 @@ pub fn run(cfg: &Cfg) {
             sink.stat("PublicKey(spki-import-with-foreign-scheme)/import-rejected");
         }
     }
+    // the text <-> instant part of the layout codec against Model/Time.lean
+    crate::timegen::run_time_cases(&mut sink, &mut r, if cfg.thorough { 5000 } else { 400 });
     sink.finish(&cfg.out, serde_json::json!({}));
     let _ = hex(&[]);
 }
